@@ -65,6 +65,10 @@ type world struct {
 
 	lockProbes int
 	scanning   bool
+
+	forceOwner *cOwner // genOp(kOpen): use this open-owner
+	windowSeq  uint32  // reentryWindow: seqid of the owner's latest request
+	inWindow   bool
 }
 
 func newWorld(rt *rapid.T, prof *profile, nClients int) *world {
@@ -213,6 +217,7 @@ func fmtStep(s *opSpec) string {
 	add("data", s.Data, s.Kind == kWrite)
 	add("size", s.Size, s.Kind == kSetattr || s.Kind == "advance")
 	add("park", s.Park, s.Park != "")
+	add("gate", s.Gate, s.Gate)
 	add("fault", s.Fault+"/"+s.FaultSt, s.Fault != "")
 	add("retx", s.Retx, s.Retx != 0)
 	add("note", s.Note, s.Note != "")
@@ -240,6 +245,8 @@ func (w *world) issue(c *cClient, op *opSpec) {
 	args := buildCompound(op)
 	ctx := context.WithValue(context.Background(), ctlKey{}, fl.ctl)
 	go func() {
+		w.clock.bind(fl.ctl)
+		defer w.clock.unbind()
 		defer func() {
 			if r := recover(); r != nil {
 				fl.panicked = fmt.Sprintf("%v\n%s", r, debug.Stack())
@@ -364,6 +371,13 @@ func (w *world) settle(fl *flight, out outcome) {
 			if op.Retx != 0 {
 				w.label("duplicate_while_original_in_flight")
 			}
+			if op.Gate {
+				// The request's goroutine is durably blocked on the
+				// transaction's channel: its next clock reading is the
+				// one of enter() in waitForCurrentTransactionCompletion.
+				fl.ctl.armGate(w.clock)
+				w.label("waiter_to_be_held_at_reentry")
+			}
 		}
 		for _, x := range w.flights {
 			if x == fl {
@@ -467,7 +481,7 @@ func (w *world) release(fl *flight) {
 			}
 		}
 	}
-	close(fl.ctl.release)
+	fl.ctl.unpark()
 	synctest.Wait()
 	w.observeInto(fl)
 	out := w.m.run(fl.inf)
@@ -475,7 +489,20 @@ func (w *world) release(fl *flight) {
 	st.Out = fl.op.Out
 	for _, x := range waiters {
 		x.inf.waitOn.waiters--
-		x.inf.waitOn = nil
+		x.inf.waited, x.inf.waitOn = x.inf.waitOn, nil
+		if x.op.Gate {
+			// The transaction is over, the waiter woke up and is held
+			// inside the clock reading of enter(): it has not reacquired
+			// the server lock, so for the server (and the model) it has
+			// not done anything yet. Whatever happens until the harness
+			// lets it go happens before its lookups.
+			if _, at := x.observe(); at != parkReenter {
+				w.fail("C19", "step %d %s waited for the transaction of step %d; that transaction completed, but the waiter did not wake up (it is at '%s', expected at the clock reading of enter())", x.op.N, x.op.Kind, fl.op.N, at)
+			}
+			w.label("waiter_held_at_reentry")
+			st.Out += fmt.Sprintf("; waiter %d: held@%s", x.op.N, parkReenter)
+			continue
+		}
 		w.observeInto(x)
 		out := w.m.run(x.inf)
 		w.settle(x, out)
@@ -513,6 +540,18 @@ func (w *world) checkQuiescent() {
 		w.fail("C18", "the file allocator created %d files, the replies imply %d", len(leaves), len(w.m.leaves))
 	}
 	held := w.m.held()
+	// Requests that are held at the clock reading of enter() after
+	// having waited hold nothing (no lock, no transaction, no file):
+	// the accounting is as exact as without requests in flight.
+	exact := true
+	for _, fl := range w.flights {
+		if fl.ctl.where() != parkReenter {
+			exact = false
+		}
+	}
+	if exact && len(w.flights) > 0 {
+		w.labels["exact_accounting_while_waiters_held_at_reentry"]++
+	}
 	for _, l := range leaves {
 		o, c, _, viol := l.snapshot()
 		if len(viol) > 0 {
@@ -524,7 +563,7 @@ func (w *world) checkQuiescent() {
 				w.fail("C18", "leaf#%d closed for %s %d times but opened %d times", l.idx, name, c[b], o[b])
 			}
 			want := held[l.idx][b]
-			if len(w.flights) == 0 {
+			if exact {
 				if out != want {
 					w.fail("C18", "leaf#%d: %d outstanding opens for %s (opens=%d closes=%d), the replies imply %d holders (open states incl. upgrades/downgrades, lock-owner clones, in-flight I/O)", l.idx, out, name, o[b], c[b], want)
 				}
@@ -632,15 +671,15 @@ func (w *world) finish() {
 // unparkAll lets every parked request go (repeatedly: a request that
 // waited behind a released one may park itself) so that the bubble can end.
 func (w *world) unparkAll() {
+	for _, fl := range w.issued {
+		fl.ctl.openGate(w.clock)
+	}
 	for round := 0; round < 8; round++ {
 		any := false
 		for _, fl := range w.issued {
 			if fl.ctl.where() != "" {
 				any = true
-				func() {
-					defer func() { recover() }()
-					close(fl.ctl.release)
-				}()
+				fl.ctl.unpark()
 			}
 		}
 		synctest.Wait()
